@@ -2,11 +2,15 @@
 
 TLC enumerates row lists (ragged key sets, non-string field names, ints, floats with <=5 / >5 decimals,
 integral floats, NaN/inf, strings with escapes, None, lists, tuples, nested sequences, dicts with
-non-string keys) and computes the expected tables under the documented normalisation.  Every case goes
+non-string keys, reward objects = instances of the registered classes L1Reward / BinaryReward / HammingReward /
+DiscreteReward, alone and inside lists) and computes the expected tables under the documented normalisation.  Every case goes
 through the real TransactionEncode -> text -> TransactionDecode -> TransactionResult; a sample goes
 through a whole Experiment.run with an evaluator yielding exactly those rows and components whose params
 are those values: without a file, with a plain file, with a .gz file, Result.from_file, and a second run
-restoring from the file - all five Results must be equal to the expectation and to each other."""
+restoring from the file - all five Results must be equal to the expectation and to each other.
+Histories: besides one and two triples per log, logs / experiments of 3-5 triples whose rows (and every object in them) are
+made when the triple is evaluated and released once it is written, as evaluators do - the k-th triple's table rows must
+be the k-th evaluator call's rows whatever the earlier triples yielded."""
 import os, json, math, random, collections
 from .. import tlc, tracecheck
 
@@ -17,8 +21,22 @@ FINISH = dict(level="model_checking",
 BIG = {1: 3965164488755.0, 2: 1.7976931348623157e308, 3: -3121000059417.0}      # whole-number floats: >= 2**41 (times 1e5 is no longer exact), the largest finite double
 
 
+def reward_state(c, a):
+    """The state a reward object of registered class c made from the arguments a is logged with (its __getstate__ as documented
+    in coba/primitives.py: L1 - the argmax; BR - repr of (argmax,) or of (argmax, value) when value != 1; HR - repr of the
+    label list; DR - repr of ((actions, rewards), default)) - written from the arguments, never asked of the object."""
+    if c == "L1": return a[0]
+    if c == "BR": return repr((a[0],)) if len(a) == 1 or a[1] == 1 else repr((a[0], a[1]))
+    if c == "HR": return repr(a[0])
+    if c == "DR": return repr(((a[0], a[1]), 0))
+    raise ValueError(c)
+
+
 def to_py(v):
     t = v["t"]
+    if t == "rwd":      # a NEW object on every rendering
+        from coba.primitives import L1Reward, BinaryReward, HammingReward, DiscreteReward
+        return {"L1": L1Reward, "BR": BinaryReward, "HR": HammingReward, "DR": DiscreteReward}[v["v"][0]](*[to_py(x) for x in v["v"][1]])
     if t == "int": return v["v"]
     if t == "flt": return v["v"] / 1e7
     if t == "str": return v["v"].replace("\\n", "\n\u2603\u00e9\udce9")     # backslash-n of the model = a real newline + non-ASCII characters + a lone surrogate (what os.fsdecode gives for a non-UTF-8 file name); strings are opaque to the normalisation
@@ -34,6 +52,7 @@ def to_py(v):
 
 def exp_py(v):
     t = v["t"]
+    if t == "rlog": return {v["v"][0]: reward_state(v["v"][0], [to_py(x) for x in v["v"][1]])}
     if t == "f5": return v["v"] / 1e5
     if t == "lst": return [exp_py(x) for x in v["v"]]
     if t == "tup": return tuple(exp_py(x) for x in v["v"])
@@ -73,6 +92,30 @@ class RowsEval:
     def params(self): return {"kind": "rows"}
     def evaluate(self, env, lrn):
         for r in self.rows: yield dict(r)
+
+
+class FreshRowsEval:
+    """An evaluator that yields, for learner k, the rows of the k-th case - values and objects made anew in every call."""
+    def __init__(self, group): self.group = group
+    @property
+    def params(self): return {"kind": "fresh rows"}
+    def evaluate(self, env, lrn):
+        for pairs in self.group[lrn.params["k"]]["rows"]: yield {to_py(k): to_py(v) for k, v in pairs}
+
+
+def want_triples(group):
+    """expected rows of every triple of one log: a column no row of the triple has is Missing (the table's own marker)"""
+    from coba.results.core import Missing
+    exps = [expect_rows(c) for c in group]
+    allcols = {k for e in exps for r in e for k in r}
+    return {t: [dict({k: Missing for k in allcols}, **r) for r in e] for t, e in enumerate(exps)}
+
+
+def got_triples(res, idcol, n):
+    got = {t: [] for t in range(n)}
+    for r in res.interactions.to_dicts():
+        got[r[idcol]].append({k: v for k, v in r.items() if k not in ("environment_id", "learner_id", "evaluator_id")})
+    return got
 
 
 class PLearner:
@@ -124,6 +167,11 @@ def run(ctx):
     r3 = tlc.run("ResultCodec", cfg, ctx.scratch, workers=16, timeout=3600, heap="8g")
     ctx.add_tlc("ResultCodec extreme floats", r3)
     cases += [j for j in r3.json if isinstance(j, dict) and "expected" in j]
+    # reward objects (both tiers): instances of the registered reward classes, two states per class, alone and inside a list
+    cfg = tracecheck._cfg("ResultCodec.cfg", {"ValSet <- SmallVals": "ValSet <- RewardVals"}, ctx.scratch, "codec_rwd.cfg")
+    r4 = tlc.run("ResultCodec", cfg, ctx.scratch, workers=8, timeout=3600, heap="8g")
+    ctx.add_tlc("ResultCodec reward objects", r4)
+    cases += [j for j in r4.json if isinstance(j, dict) and "expected" in j]
     cases.sort(key=lambda c: json.dumps(c, sort_keys=True))
     ctx.sample(cases[len(cases) // 3], limit=1)
     ctx.exhaustive = True
@@ -176,6 +224,60 @@ def run(ctx):
             if len(got[t]) != len(want[t]) or not all(same(g, e) for g, e in zip(got[t], want[t])):
                 ctx.violation("codec:two-triples:differs", "two triples in one log: rows of triple %d read back as %r, expected %r (the other triple's rows: %r); %s" % (t, got[t], want[t], rows_b if t == 0 else rows_a, where_differs(got[t], want[t])),
                               dict(rows_a=ca["rows"], rows_b=cb["rows"], triple=t)); break
+    # ---- 3-5 triples in one log, made and released one after the other (what an Experiment does: the rows of a triple and
+    #      the objects in them exist from its evaluation until it is written): every triple reads back as ITS rows.  Groups are
+    #      drawn from the cases with reward objects (the values whose logged form is asked of the object) and from all cases ----
+    rcases = [c for c in cases if '"rwd"' in json.dumps(c["rows"])]
+    if not rcases: raise RuntimeError("no case with a reward object")
+    groups = []
+    for i in range(0, len(rcases), ctx.pick(5, 2)):
+        n = 3 + i % 3
+        groups.append([rcases[(i + j * (7 + 2 * n)) % len(rcases)] if j != 1 or i % 4 else cases[(i * 11 + 5) % len(cases)] for j in range(n)])
+    for group in groups:
+        want = want_triples(group)
+        ctx.case("many" + json.dumps([c["rows"] for c in group], sort_keys=True))
+        def items():
+            yield ["T0", {}]
+            for t, c in enumerate(group): yield ["T4", (0, t, 0), [{to_py(k): to_py(v) for k, v in pairs} for pairs in c["rows"]]]
+        try:
+            res = TransactionResult().filter(TransactionDecode().filter(list(TransactionEncode(None).filter(items()))))
+            got = got_triples(res, "learner_id", len(group))
+        except Exception as e:
+            ctx.violation("codec:many-triples:raises", "encode/decode of %d triples' rows raised %s: %s" % (len(group), type(e).__name__, str(e)[:120]), dict(rows=[c["rows"] for c in group])); continue
+        for t in range(len(group)):
+            if len(got[t]) != len(want[t]) or not all(same(g, e) for g, e in zip(got[t], want[t])):
+                ctx.violation("codec:many-triples:differs", "%d triples in one log: rows of triple %d read back as %r, expected %r; %s" % (len(group), t, got[t], want[t], where_differs(got[t], want[t])),
+                              dict(rows=[c["rows"] for c in group], triple=t)); break
+    # ---- the same through whole experiments (one environment, 3-5 learners, an evaluator that makes learner k's rows when
+    #      it is called for learner k), five ways ----
+    d = os.path.join(ctx.scratch, "expm"); os.makedirs(d, exist_ok=True)
+    msample = rng.sample(groups, min(len(groups), ctx.pick(20, 200)))
+    for n, group in enumerate(msample):
+        want = want_triples(group)
+        def mk():
+            return Experiment([PEnv({})], [PLearner({"family": "p", "k": k}) for k in range(len(group))], FreshRowsEval(group))
+        results = {}
+        try:
+            explib.quiet_ctx()
+            results["nofile"] = mk().run(quiet=True)
+            for kind in ("log", "log.gz"):
+                f = os.path.join(d, "m%d.%s" % (n, kind))
+                if os.path.exists(f): os.remove(f)
+                results[kind] = mk().run(f, quiet=True)
+                results[kind + ":from_file"] = Result.from_file(f)
+                results[kind + ":restored"] = mk().run(f, quiet=True)
+                os.remove(f)
+        except Exception as e:
+            ctx.violation("experiment:many-triples:raises", "Experiment.run with %d learners raised %s: %s" % (len(group), type(e).__name__, str(e)[:120]), dict(rows=[c["rows"] for c in group])); continue
+        ctx.case("expmany" + json.dumps([c["rows"] for c in group], sort_keys=True))
+        for name, res in results.items():
+            got = got_triples(res, "learner_id", len(group))
+            bad = [t for t in range(len(group)) if len(got[t]) != len(want[t]) or not all(same(g, e) for g, e in zip(got[t], want[t]))]
+            if bad:
+                t = bad[0]
+                ctx.violation("experiment:many-triples:rows:" + name.split(":")[-1], "[%s] %d learners: interactions of learner %d are %r, expected %r; %s" % (name, len(group), t, got[t], want[t], where_differs(got[t], want[t])),
+                              dict(rows=[c["rows"] for c in group], how=name, triple=t)); break
+    ctx.extra["many_triple_logs"] = len(groups); ctx.extra["many_triple_experiments_run"] = len(msample) * 7
     # ---- a sample through whole experiments, five ways ----
     d = os.path.join(ctx.scratch, "exp"); os.makedirs(d, exist_ok=True)
     sample = rng.sample(cases, min(len(cases), ctx.pick(120, 1500)))
@@ -212,5 +314,6 @@ def run(ctx):
                 if len(pr) != 1 or not same({k: v for k, v in pr[0].items()}, want): bad = "[%s] %s table %r, expected %r" % (name, idc, pr, want)
             if bad:
                 ctx.violation("experiment:params:" + name.split(":")[-1], bad, dict(rows=c["rows"], how=name)); break
-    ctx.extra["experiments_run"] = len(sample) * 7; ctx.traces += len(cases) + len(sample)
-    ctx.assumptions += ["numpy / torch values (the ndim branch) are not installed here", "floats whose 6th decimal is exactly 5 (rounding ties in binary) are not generated"]
+    ctx.extra["experiments_run"] = len(sample) * 7; ctx.traces += len(cases) + len(sample) + len(groups) + len(msample)
+    ctx.assumptions += ["numpy / torch values (the ndim branch) are not installed here", "floats whose 6th decimal is exactly 5 (rounding ties in binary) are not generated",
+                        "reward objects are built from ints, lists and floats with <= 5 decimals (their state is the object's own and is compared as it is)"]
